@@ -3,7 +3,7 @@
     property is Spec.v. *)
 From Coq Require Import List NArith ZArith Bool.
 Import ListNotations.
-Require Import Aurora.Consts Aurora.C11.Model Aurora.C11.Spec Aurora.C11.ProofsRefine Aurora.C11.ProofsBatch.
+Require Import Aurora.Consts Aurora.C11.Model Aurora.C11.Spec Aurora.C11.ProofsRefine Aurora.C11.ProofsBatch Aurora.C11.Conc.
 Local Open Scope N_scope.
 
 (** the mode numbers the model's constructors stand for are the Go constants
@@ -72,6 +72,30 @@ Theorem C11_batch_equals_sequence_partial :
   abs sb = abs ss /\ flags_of rb = all_flags rs.
 Proof. exact batch_seq_content. Qed.
 Print Assumptions C11_batch_equals_sequence_partial.
+
+(** CONCURRENCY (interleaving model Conc.v; histories above are sequences of
+    atomic calls).  n concurrent single-chunk Puts (non-pin modes) of one new
+    address; a call = lock-free pre-check, then the region under batchMu with
+    its own Has check.  For ALL schedules: [PI] (at most one write, bin counter
+    moved accordingly) and, once every call has returned, exactly one call
+    reported exist=false, the address was written once, by that call, with the
+    bin id the counter shows. *)
+Theorem C11_concurrent_puts_one_winner : forall (b0 : N) (n : nat) (sched : list nat),
+  let st := p_run false (p_init b0 n) sched in
+  PI b0 st /\
+  (all_done (snd st) -> (0 < n)%nat ->
+   exists w, p_entry (fst st) = Some (b0 + 1, w) /\ p_bin (fst st) = b0 + 1 /\ p_stores (fst st) = 1 /\
+             only_false (snd st) w).
+Proof. exact concurrent_puts_one_winner. Qed.
+Print Assumptions C11_concurrent_puts_one_winner.
+
+(** seeded change C11-3 (pre-check result reused under the lock): schedule
+    [0;1;0;1] of two calls — both report exist=false, two writes, counter +2 *)
+Theorem C11_concurrent_puts_seeded_refuted :
+  let st := p_run true (p_init 7 2) [0; 1; 0; 1]%nat in
+  all_done (snd st) /\ snd st = [PDone false; PDone false] /\ p_stores (fst st) = 2 /\ p_bin (fst st) = 9.
+Proof. exact concurrent_puts_seeded_refuted. Qed.
+Print Assumptions C11_concurrent_puts_seeded_refuted.
 
 (** non-vacuity: a history with batched and single puts in three modes, a
     repeated address, a removal that only unpins and one that removes *)
